@@ -170,6 +170,18 @@ Proof.
   - repeat split; vm_compute; reflexivity.
 Qed.
 
+(* The ideal-KDF hypothesis of open_iff_some_password speaks about the password the user supplies.
+   It is a statement about scrypt alone only if the code feeds scrypt exactly the password bytes
+   (`passwd.as_ref()`), both when a key file is made and when it is opened, and hands the password
+   on unchanged from Repository::open / add_key_to_repo — regenerated from keyfile.rs,
+   repository.rs and commands/key.rs.  (A normalisation of the password before the KDF makes
+   distinct passwords open the same key file.) *)
+Theorem kdf_fed_with_password_bytes :
+  x_kdf_input_open = KdfPasswordBytes /\ x_kdf_input_generate = KdfPasswordBytes
+  /\ x_password_passed_unchanged = true.
+Proof. repeat split; reflexivity. Qed.
+Print Assumptions kdf_fed_with_password_bytes.
+
 (* Every class of call site found in the source hands to the backend a ciphertext envelope, a
    pack made of ciphertext envelopes + encrypted header + 4-byte length, or a key file; the
    unencrypted branch of save_file is reachable for key files only. *)
